@@ -153,6 +153,42 @@ func startManifest(name string) vgen.Manifest {
 	return nil
 }
 
+type startState struct {
+	text  string
+	store map[string][]byte
+	files map[string][]byte
+	paths []string
+	dirs  []string
+}
+
+var startCache = map[string]*startState{}
+
+// loadStart interprets the start manifest with the spec interpreter (once per process).
+func loadStart(name string) *startState {
+	if st, ok := startCache[name]; ok {
+		return st
+	}
+	st := &startState{}
+	if m := startManifest(name); m != nil {
+		st.text = m.Text()
+		st.store = m.Store()
+		files, spec, err := vgen.SpecBytes(st.text, st.store)
+		if err != nil {
+			panic("start manifest does not parse under the spec interpreter: " + err.Error())
+		}
+		st.files = files
+		st.paths = vgen.SortedKeys(files)
+		for d := range spec.Dirs {
+			st.dirs = append(st.dirs, d)
+		}
+		sort.Strings(st.dirs)
+	} else if name != "empty" {
+		panic("unknown start manifest " + name)
+	}
+	startCache[name] = st
+	return st
+}
+
 // ---------------------------------------------------------------------------------------------
 // reference model
 
@@ -259,6 +295,7 @@ type fsCfg struct {
 	Slow    bool   `json:"slow"`
 	Depth   int    `json:"depth"`
 	UUID    string `json:"uuid,omitempty"`
+	Faults  bool   `json:"faults,omitempty"` // alphabet includes "kf 1"/"kf 0": every Keep write fails while on (C09)
 }
 
 func (c fsCfg) String() string {
@@ -293,21 +330,18 @@ func newFsys(cfg fsCfg) *fsys {
 	s := &fsys{cfg: cfg, keep: newFakeKeep(), api: &fakeAPI{}, root: newMDir()}
 	s.keep.slow = cfg.Slow
 	maxBlockSize = cfg.Block
-	txt := ""
-	if m := startManifest(cfg.Start); m != nil {
-		txt = m.Text()
-		for h, data := range m.Store() {
+	st := loadStart(cfg.Start)
+	txt := st.text
+	if txt != "" {
+		for h, data := range st.store {
 			s.keep.blocks[h] = data
 			s.keep.orig[h] = true
 		}
-		files, spec, err := vgen.SpecBytes(txt, s.keep.blocks)
-		if err != nil {
-			panic("start manifest does not parse under the spec interpreter: " + err.Error())
-		}
-		for d := range spec.Dirs {
+		for _, d := range st.dirs {
 			s.mmkdirAll(d)
 		}
-		for p, data := range files {
+		for _, p := range st.paths {
+			data := st.files[p]
 			if p == "." || strings.HasSuffix(p, "/.") {
 				// the empty-directory marker "0:0:\056" names the file "." of its stream: the model
 				// keeps the directory (already in spec.Dirs) and no file
@@ -846,6 +880,11 @@ func (s *fsys) predictMv(src, dst string) mvPred {
 func (s *fsys) evMv(ev, src, dst string) {
 	p := s.predictMv(src, dst)
 	err := s.fs.Rename(src, dst)
+	if p.noop && p.verdict == "ok" && err == nil {
+		if _, serr := s.fs.Stat(src); serr != nil {
+			s.fail("rename-onto-itself:file-removed", "%s: renaming a regular file onto itself succeeded and the file is gone (Stat: %v); an ordinary filesystem leaves it alone", ev, serr)
+		}
+	}
 	if s.judge("rename", ev, p.verdict, p.want, err) && p.verdict != "fail" && !p.noop {
 		sp, sname, _ := s.mparent(src)
 		dp, dname, _ := s.mparent(dst)
@@ -970,6 +1009,9 @@ func (s *fsys) apply(ev string) {
 	case "bg":
 		vsched.Sleep(2 * time.Hour)
 		s.outcome = "bg:finished"
+	case "kf":
+		s.keep.armed, s.keep.failAll = t[1] == "1", t[1] == "1"
+		s.outcome = "kf:" + t[1]
 	default:
 		panic("unknown event " + ev)
 	}
@@ -1004,13 +1046,14 @@ func (s *fsys) checkListing(ctx string, f interface {
 			want = append(want, fmt.Sprintf("%s:%d", k, len(mn.kids[k].obj.data)))
 		}
 	}
+	sort.Strings(want)
 	if strings.Join(got, " ") != strings.Join(want, " ") {
 		s.fail("listing-mismatch", "%s: directory listing %q, model %q", ctx, got, want)
 	}
 }
 
-func (s *fsys) readAll(ctx, path string) ([]byte, bool) {
-	f, err := s.fs.OpenFile(path, os.O_RDONLY, 0)
+func (s *fsys) readAll(ctx string, fs CollectionFileSystem, path string) ([]byte, bool) {
+	f, err := fs.OpenFile(path, os.O_RDONLY, 0)
 	if err != nil {
 		s.fail("probe:open-failed", "%s: open %q for reading: %v", ctx, path, err)
 		return nil, false
@@ -1038,13 +1081,29 @@ func (s *fsys) readAll(ctx, path string) ([]byte, bool) {
 // cheapProbe compares everything the model knows about linked files with what the interface
 // reports: listings, Stat, sizes, complete contents, total size, handle sizes and offsets.
 func (s *fsys) cheapProbe(ctx string) {
+	s.probeTree(ctx, s.fs, s.root)
+	for i, h := range s.h {
+		if h == nil {
+			continue
+		}
+		if got := h.f.Size(); got != int64(len(h.obj.data)) {
+			s.fail("handle:wrong-size", "%s: handle %d Size()=%d, model %d", ctx, i, got, len(h.obj.data))
+		}
+		if pos, err := h.f.Seek(0, io.SeekCurrent); err != nil || pos != h.off {
+			s.fail("handle:wrong-offset", "%s: handle %d offset %d (%v), model %d", ctx, i, pos, err, h.off)
+		}
+	}
+}
+
+// probeTree compares filesystem fs with the model tree root through the exported interface.
+func (s *fsys) probeTree(ctx string, fs CollectionFileSystem, root *mnode) {
 	var walk func(mn *mnode, p string)
 	walk = func(mn *mnode, p string) {
 		name := p
 		if name == "" {
 			name = "."
 		}
-		f, err := s.fs.Open(name)
+		f, err := fs.Open(name)
 		if err != nil {
 			s.fail("probe:open-failed", "%s: open directory %q: %v", ctx, name, err)
 			return
@@ -1056,7 +1115,7 @@ func (s *fsys) cheapProbe(ctx string) {
 				kp = p + "/" + k
 			}
 			kid := mn.kids[k]
-			fi, err := s.fs.Stat(kp)
+			fi, err := fs.Stat(kp)
 			if err != nil {
 				s.fail("stat:failed", "%s: Stat(%q): %v", ctx, kp, err)
 				continue
@@ -1072,25 +1131,14 @@ func (s *fsys) cheapProbe(ctx string) {
 			if fi.Size() != int64(len(kid.obj.data)) {
 				s.fail("stat:wrong-size", "%s: Stat(%q).Size()=%d, model %d", ctx, kp, fi.Size(), len(kid.obj.data))
 			}
-			if got, ok := s.readAll(ctx, kp); ok && string(got) != string(kid.obj.data) {
+			if got, ok := s.readAll(ctx, fs, kp); ok && string(got) != string(kid.obj.data) {
 				s.fail("content-mismatch", "%s: %q reads %q, model %q", ctx, kp, got, kid.obj.data)
 			}
 		}
 	}
-	walk(s.root, "")
-	if got, want := s.fs.Size(), s.root.treeSize(); got != want {
+	walk(root, "")
+	if got, want := fs.Size(), root.treeSize(); got != want {
 		s.fail("size-mismatch", "%s: filesystem Size()=%d, model %d", ctx, got, want)
-	}
-	for i, h := range s.h {
-		if h == nil {
-			continue
-		}
-		if got := h.f.Size(); got != int64(len(h.obj.data)) {
-			s.fail("handle:wrong-size", "%s: handle %d Size()=%d, model %d", ctx, i, got, len(h.obj.data))
-		}
-		if pos, err := h.f.Seek(0, io.SeekCurrent); err != nil || pos != h.off {
-			s.fail("handle:wrong-offset", "%s: handle %d offset %d (%v), model %d", ctx, i, pos, err, h.off)
-		}
 	}
 }
 
@@ -1232,7 +1280,11 @@ func (r *renamer) loc(l string) int {
 // pointer) and the model's view of open objects.  Byte values and locators are renamed by order of
 // first appearance (the filesystem is data-independent; zero keeps its meaning), handles stay in
 // their slots.
-func (s *fsys) canon() string {
+func (s *fsys) canon() string { return s.canonOpt(true) }
+
+// canonOpt(false) leaves out the handles (slots, offsets, cached pointers, model view): what the
+// result of a save can depend on.
+func (s *fsys) canonOpt(withHandles bool) string {
 	var sb strings.Builder
 	rn := &renamer{bytes: map[byte]int{}, locs: map[string]int{}}
 	idx := map[*filenode]int{}
@@ -1276,6 +1328,10 @@ func (s *fsys) canon() string {
 			fmt.Fprintf(&sb, "|h%d:?", i)
 			continue
 		}
+		if !withHandles {
+			add(fn)
+			continue
+		}
 		fmt.Fprintf(&sb, "|h%d:#%d@%d", i, add(fn), h.fh.ptr.off)
 		if h.fh.readable {
 			sb.WriteByte('r')
@@ -1310,11 +1366,11 @@ func (s *fsys) canon() string {
 			}
 		}
 	}
-	fmt.Fprintf(&sb, "\nthr=%d inflight=%d", len(cfs.thr.c), s.keep.inflight)
+	fmt.Fprintf(&sb, "\nthr=%d inflight=%d kf=%v", len(cfs.thr.c), s.keep.inflight, s.keep.failAll)
 	// model view of the open objects (linked files are compared through the interface after every
 	// transition; unlinked ones only when they are read)
 	for i, h := range s.h {
-		if h != nil {
+		if h != nil && withHandles {
 			fmt.Fprintf(&sb, "\nm%d@%d[%s]", i, h.off, rn.render(h.obj.data))
 		}
 	}
@@ -1325,6 +1381,7 @@ func (s *fsys) canon() string {
 // alphabets
 
 type profile struct {
+	setup   []string // events applied before the history (not counted in its depth)
 	files   []string // paths for persistent opens
 	flags   []string
 	maxH    int
@@ -1333,6 +1390,7 @@ type profile struct {
 	rlens   []int
 	seeks   [][2]int // whence, offset
 	truncs  []int
+	closes  bool
 	mkdirs  []string
 	mvs     [][2]string
 	rms     []string
@@ -1342,30 +1400,53 @@ type profile struct {
 	sync    bool
 }
 
-var allSeeks = [][2]int{{0, 0}, {0, 2}, {1, -1}, {1, 2}, {2, -1}, {2, 0}, {2, 2}}
+var (
+	fullSeeks  = [][2]int{{0, 0}, {0, 2}, {1, -1}, {2, 0}, {2, 2}}
+	shortSeeks = [][2]int{{0, 0}, {0, 2}, {2, 0}}
+)
 
 var profiles = map[string]profile{
-	// one file, two handles, the full data alphabet
-	"data1": {files: []string{"a"}, flags: []string{"RWc", "Wca", "R"}, maxH: 2, perFile: 2,
-		wlens: []int{0, 1, 2, 3, 5}, rlens: []int{1, 3, 8}, seeks: allSeeks, truncs: []int{0, 1, 3, 6},
+	// one file, one read-write handle, the full data alphabet
+	"one": {setup: []string{"open a RWc"},
+		wlens: []int{0, 1, 2, 3, 5}, rlens: []int{1, 8}, seeks: fullSeeks, truncs: []int{0, 1, 3, 6},
 		flushes: []string{"- 1", "- 0"}, marshal: true},
-	// two files in two directories (small segments of several files are packed into one block)
-	"data2": {files: []string{"a", "d/b"}, flags: []string{"RWc", "Wca"}, maxH: 2, perFile: 1,
-		wlens: []int{1, 2, 3}, rlens: []int{3}, seeks: [][2]int{{0, 0}, {0, 2}, {1, -1}, {2, 0}}, truncs: []int{0, 1, 3},
-		mkdirs: []string{"d"}, flushes: []string{"- 1", "- 0", "d 1", "d 0"}, marshal: true},
+	// one file, two read-write handles with independent offsets and cached segment pointers
+	"two": {setup: []string{"open a RWc", "open a RWc"},
+		wlens: []int{1, 3}, rlens: []int{1, 8}, seeks: shortSeeks, truncs: []int{1},
+		flushes: []string{"- 0"}, marshal: true},
+	// one file, a read-write handle and an O_APPEND writer
+	"app": {setup: []string{"open a RWc", "open a Wca"},
+		wlens: []int{1, 3}, rlens: []int{1, 8}, seeks: shortSeeks, truncs: []int{1},
+		flushes: []string{"- 0"}, marshal: true},
+	// two files in two directories: small segments of several files are packed into shared blocks
+	"pack": {setup: []string{"mkdir d", "open a RWc", "open d/b RWc"},
+		wlens: []int{1, 2, 3}, rlens: []int{8}, seeks: [][2]int{{0, 0}}, truncs: []int{0, 1},
+		flushes: []string{"- 1", "- 0", "d 1", "d 0"}, marshal: true},
 	// the name space: every directory-level operation, handles that outlive their names
 	"names": {files: []string{"a", "d/b", "d/e/c"}, flags: []string{"R", "W", "RW", "RWc", "Wct", "Wa", "RWcx", "Wca", "RWt"}, maxH: 3, perFile: 2,
-		wlens: []int{2}, rlens: []int{3}, seeks: [][2]int{{0, 0}}, truncs: []int{0},
+		wlens: []int{2}, rlens: []int{3}, seeks: [][2]int{{0, 0}}, truncs: []int{0}, closes: true,
 		mkdirs: []string{"d", "d/e", "n"},
 		mvs: [][2]string{{"a", "n"}, {"a", "d/b"}, {"a", "d/n"}, {"d/b", "a"}, {"d/b", "d/n"}, {"d/e/c", "a"}, {"n", "a"}, {"d/n", "d/b"},
-			{"d", "n"}, {"n", "d"}, {"d/e", "n"}, {"n", "d/e"}, {"d", "a"}, {"a", "a"}, {"d/e", "d/n"}, {"d", "d"}, {"n", "d/n"}},
+			{"d", "n"}, {"n", "d"}, {"d/e", "n"}, {"n", "d/e"}, {"d", "a"}, {"a", "a"}, {"d/b", "d/b"}, {"d/e", "d/n"}, {"d", "d"}, {"n", "d/n"}},
 		rms:     []string{"a", "n", "d/b", "d/n", "d/e/c", "d/e", "d"},
 		rmalls:  []string{"d", "d/e", "a"},
 		flushes: []string{"- 1"}, marshal: true, sync: true},
 	// every open flag combination as a transition (including the creating / truncating ones)
 	"flags": {files: []string{"a", "d/b"}, flags: allFlagCombos(), maxH: 2, perFile: 2,
-		wlens: []int{2}, rlens: []int{3}, truncs: []int{},
+		wlens: []int{2}, rlens: []int{3}, closes: true,
 		mkdirs: []string{"d"}, rms: []string{"a", "d/b"}},
+}
+
+// applySetup runs the profile's setup events (a mkdir of an existing directory is skipped).
+func (s *fsys) applySetup() {
+	for _, ev := range profiles[s.cfg.Profile].setup {
+		if t := strings.Split(ev, " "); t[0] == "mkdir" {
+			if v, _ := s.predictMkdir(t[1]); v == "fail" {
+				continue
+			}
+		}
+		s.apply(ev)
+	}
 }
 
 // enabled lists the events of the profile the model expects to succeed (or leaves unspecified);
@@ -1399,7 +1480,9 @@ func (s *fsys) enabled() []string {
 		for _, n := range p.truncs {
 			out = append(out, fmt.Sprintf("tr %d %d", i, n))
 		}
-		out = append(out, fmt.Sprintf("cl %d", i))
+		if p.closes {
+			out = append(out, fmt.Sprintf("cl %d", i))
+		}
 	}
 	if nh < p.maxH {
 		for _, f := range p.files {
@@ -1452,11 +1535,18 @@ func (s *fsys) enabled() []string {
 		}
 		out = append(out, "flush "+f)
 	}
-	if p.marshal {
+	if p.marshal && !s.keep.failAll {
 		out = append(out, "marshal")
 	}
-	if p.sync {
+	if p.sync && !s.keep.failAll {
 		out = append(out, "sync")
+	}
+	if s.cfg.Faults {
+		if s.keep.failAll {
+			out = append(out, "kf 0")
+		} else {
+			out = append(out, "kf 1")
+		}
 	}
 	if s.keep.inflight > 0 {
 		out = append(out, "bg")
